@@ -446,10 +446,11 @@ func genLaunch(t *rapid.T) LaunchCase {
 			c.Inherited[k] = "inh-" + pbt.Pick(t, []string{"1", "2"})
 		}
 		if pbt.Pct(t, 30) {
-			c.EnvCmds[k] = "cmd-" + pbt.Pick(t, []string{"1", "2"})
+			// the empty string is a value like any other: the variable is set, and it shadows the inherited one
+			c.EnvCmds[k] = pbt.Pick(t, []string{"cmd-1", "cmd-2", ""})
 		}
 		if pbt.Pct(t, 45) {
-			c.Global = append(c.Global, k+"=glob-"+pbt.Pick(t, []string{"1", "2", "a=b"}))
+			c.Global = append(c.Global, k+"="+pbt.Pick(t, []string{"glob-1", "glob-2", "glob-a=b", ""}))
 		}
 	}
 	n := pbt.Range(t, 1, 3)
